@@ -45,7 +45,8 @@ def generate(seed, stratum, tier):
     clients[0].append(['subscribe', rng.randrange(nobj), 'SD', 'fifo'])
     clients[0].append(['await_idle'])
   slot = 0
-  for _ in range(common.span(rng, 2, 14, big, 4)):
+  extra = 2 * cap if (stratum != 'no-overflow' and rng.random() < 0.5) else 0     # keep a small queue full for a while
+  for _ in range(common.span(rng, 2, 14, big, 4) + extra):
     c = rng.randrange(nclients)
     r = rng.random()
     oi = rng.randrange(nobj)
